@@ -41,6 +41,15 @@ def phi_float(x):
     return 0.5 * math.erfc(-x / math.sqrt(2))
 
 
+def guarded(ctx, inp, fn):
+    """run the implementation; an exception on an admissible input is itself a violation"""
+    try:
+        return fn()
+    except Exception as e:       # noqa
+        ctx.fail("raises_on_admissible_input", "%s raised %s: %s" % (inp.get("function"), type(e).__name__, str(e)[:200]), inp, type(e).__name__, "a value")
+        return None
+
+
 def run(ctx):
     from quantecon.markov.approximation import rouwenhorst, tauchen
     from quantecon.markov.estimate import estimate_mc, fit_discrete_mc
@@ -56,9 +65,11 @@ def run(ctx):
     cases, meta, fcases, fmeta = [], [], [], []
     for n in ns:
         rho, sigma, std_y, mu = draw_ar1(rng)
-        mc = rouwenhorst(n, float(rho), float(sigma), float(mu))
-        P = np.asarray(mc.P); y = np.asarray(mc.state_values, float)
         inp = {"function": "rouwenhorst", "n": n, "rho": str(rho), "sigma": str(sigma), "mu": str(mu)}
+        mc = guarded(ctx, inp, lambda: rouwenhorst(n, float(rho), float(sigma), float(mu)))
+        if mc is None:
+            continue
+        P = np.asarray(mc.P); y = np.asarray(mc.state_values, float)
         ctx.count("rouw:n=%s" % ("2" if n == 2 else "3-9" if n < 10 else "10-40")); ctx.count("rouw:rho" + ("<0" if rho < 0 else "=0" if rho == 0 else ">0"))
         ctx.case(("rouw", n, str(rho), str(sigma), str(mu)), nontrivial=(n >= 3), sample={"rouwenhorst": inp, "grid": y[:3].tolist()})
         # ---- oracle (floats, scale-aware tolerances)
@@ -115,9 +126,11 @@ def run(ctx):
     for n in ns:
         rho, sigma, std_y, mu = draw_ar1(rng)
         n_std = rng.randrange(1, 6)
-        mc = tauchen(n, float(rho), float(sigma), float(mu), n_std)
-        P = np.asarray(mc.P); y = np.asarray(mc.state_values, float)
         inp = {"function": "tauchen", "n": n, "rho": str(rho), "sigma": str(sigma), "mu": str(mu), "n_std": n_std}
+        mc = guarded(ctx, inp, lambda: tauchen(n, float(rho), float(sigma), float(mu), n_std))
+        if mc is None:
+            continue
+        P = np.asarray(mc.P); y = np.asarray(mc.state_values, float)
         ctx.count("tauchen:n_std=%d" % n_std); ctx.count("tauchen:rho" + ("<0" if rho < 0 else "=0" if rho == 0 else ">0"))
         ctx.case(("tauchen", n, str(rho), str(sigma), str(mu), n_std), nontrivial=(n >= 3), sample={"tauchen": inp, "P00": float(P[0, 0])})
         if P.shape != (n, n) or y.shape != (n,) or P.min() < 0 or P.max() > 1 or np.max(np.abs(P.sum(1) - 1)) > 1e-12:
@@ -159,13 +172,13 @@ def run(ctx):
             return "None" if v is None else "(Some %s)" % qlit(v)
         cases.append(tup("%d%%nat" % n, qlit(rho), qlit(sigma), qlit(std_y), qlit(Fraction(n_std)), qlit(mu),
                          "[" + "; ".join("[" + "; ".join(tup(ol(lo), ol(up)) for lo, up in row) + "]" for row in args) + "]",
-                         qlist([x[i] + centre for i in range(n)])))
+                         qlist([frac(v) for v in y])))
         meta.append(inp)
     ok = ("fun c => let '(n, rho, sigma, std_y, n_std, mu, args, st) := c in "
-          "cells_eqb (tauchen_args n rho sigma std_y n_std) args && Qs_eqb (tauchen_states n rho std_y n_std mu) st")
+          "cells_eqb (tauchen_args n rho sigma std_y n_std) args && Qs_close %s (tauchen_states n rho std_y n_std mu) st" % T12)
     bad = ctx.coq_check("tauchen_args", IMPORTS, "nat * Q * Q * Q * Q * Q * list (list cell) * list Q", ok, cases, chunk=3, preamble=PRE)
     for i in bad:
-        ctx.mismatch("C13.Model.tauchen_args/tauchen_states vs harness cdf arguments used against approximation.tauchen", meta[i])
+        ctx.mismatch("C13.Model.tauchen_args (vs the cdf arguments the harness evaluated) / tauchen_states vs approximation.tauchen state_values", meta[i])
 
     # ================= estimate_mc
     cases, meta = [], []
@@ -190,7 +203,9 @@ def run(ctx):
         X[-1] = X[rng.randrange(T - 1)] if kind != 3 else list(X[rng.randrange(T - 1)])      # every occurring state is left at least once
         arr = np.array(X)
         inp = {"function": "estimate_mc", "X": X}
-        mc = estimate_mc(arr)
+        mc = guarded(ctx, inp, lambda: estimate_mc(arr))
+        if mc is None:
+            continue
         P = np.asarray(mc.P); sv = np.asarray(mc.state_values)
         rowsX = [tuple(v) if kind == 3 else (v,) for v in X]
         states = sorted(set(rowsX))
@@ -249,7 +264,9 @@ def run(ctx):
         X[-1] = list(X[rng.randrange(T - 1)])
         for order in "CF":
             inp = {"function": "fit_discrete_mc", "X": X, "grids": grids, "order": order}
-            mc = fit_discrete_mc(np.array(X), tuple(np.array(g) for g in grids), order=order)
+            mc = guarded(ctx, inp, lambda: fit_discrete_mc(np.array(X), tuple(np.array(g) for g in grids), order=order))
+            if mc is None:
+                continue
             P = np.asarray(mc.P); sv = np.asarray(mc.state_values, float)
             # oracle: own nearest-point discretisation (ties to the lower neighbour), own product enumeration, direct counting
             def near(g, v):
